@@ -435,6 +435,173 @@ static void check_stream(vmc::Ctx& ctx, const World& w, const Stream& s, bool fe
     }
 }
 
+// ------------------------------------------------------------------------------------------------ RE-USED LmToProjData objects
+// One history = the SAME LmToProjData object run 2 (thorough also 3) times; between the runs the setters whose value changes are called
+// (time frames / num_events_to_store, store flags, num_segments_in_memory, num_TOF_bins_in_memory, a new output) and the input is rewound
+// (reset() of the same list-mode object / set_input_data with a new object for the same / another stream; whether process_data() itself must
+// rewind is not documented and therefore not demanded).  After EVERY run the output must be the reference histogram of the CURRENT settings.
+struct HRun
+{
+  Mode m; int store = 0, ms = 1, mt = 1;
+  int input = 0; // runs >= 2: 0 reset() of the same list-mode object, 1 set_input_data(new object, same stream), 2 set_input_data(other stream)
+  std::string str() const { return m.str() + "/" + vmc::str(store) + "/" + vmc::str(ms) + "/" + vmc::str(mt) + "/" + vmc::str(input); }
+  static HRun parse(const std::string& s)
+  {
+    HRun r; auto p = vmc::split(s, '/'); p.resize(5, "0");
+    r.m = Mode::parse(p[0]); r.store = atoi(p[1].c_str()); r.ms = atoi(p[2].c_str()); r.mt = atoi(p[3].c_str()); r.input = atoi(p[4].c_str());
+    return r;
+  }
+};
+static void check_h_reuse(vmc::Ctx& ctx, const World& w, const Stream& s0, const Stream& s1, const std::vector<HRun>& runs)
+{
+  std::string h;
+  for (size_t i = 0; i < runs.size(); ++i) { if (i) h += "~"; h += runs[i].str(); }
+  const std::string kase = "part=HR;" + w.t.str() + ";s=" + lmref::stream_str(s0) + ";s2=" + lmref::stream_str(s1) + ";runs=" + h;
+  ctx.current("part=H;reuse", kase);
+  ctx.count("H_reuse_histories");
+  ctx.count("evaluations");
+  Stream cur = s0, other = s1;
+  shared_ptr<lmref::MemListMode> lm(new lmref::MemListMode(w.lm_pdi, cur));
+  Lm2PD conv;
+  conv.w = &w;
+  std::vector<float> prev_ref;
+  for (size_t k = 0; k < runs.size(); ++k)
+    {
+      const HRun& r = runs[k];
+      const Store& st = STORES[r.store];
+      std::string changed;
+      auto add = [&](const std::string& x) { if (!changed.empty()) changed += "+"; changed += x; };
+      shared_ptr<ProjDataInMemory> outm(new ProjDataInMemory(w.exam, w.tmpl));
+      outm->fill(SENTINEL);
+      std::string what;
+      long setters = 0;
+      const long reads0 = lm->n_read;
+      long reads1 = 0;
+      const bool threw = small::throws(
+          [&] {
+            const HRun* p = k ? &runs[k - 1] : nullptr;
+            if (!p)
+              {
+                conv.set_template_proj_data_info_sptr(w.tmpl);
+                conv.set_input_data(shared_ptr<ExamData>(lm));
+                conv.set_output_filename_prefix("unused");
+                setters += 3;
+              }
+            else if (r.input == 0) { lm->reset(); add("input:reset"); }
+            else
+              {
+                if (r.input == 2) std::swap(cur, other);
+                lm.reset(new lmref::MemListMode(w.lm_pdi, cur));
+                conv.set_input_data(shared_ptr<ExamData>(lm)); ++setters;
+                add(r.input == 2 ? "input:other_stream" : "input:same_stream_new_object");
+              }
+            shared_ptr<ProjData> out(outm);
+            conv.set_output_projdata_sptr(out); ++setters;
+            conv.out = outm.get();
+            conv.frames.clear();
+            if (!p || p->store != r.store) { conv.set_store_prompts(st.prompts); conv.set_store_delayeds(st.delayeds); setters += 2; if (p) add("store"); }
+            if (!p || p->ms != r.ms) { conv.set_num_segments_in_memory(r.ms); ++setters; if (p) add("num_segments_in_memory"); }
+            if (!p || p->mt != r.mt) { conv.num_timing_poss_in_memory = r.mt; conv._already_setup = false; ++setters; if (p) add("num_TOF_bins_in_memory"); }
+            if (!p || p->m.str() != r.m.str())
+              {
+                if (r.m.n > 0)
+                  {
+                    // "if larger than 0, frame definitions will be ignored"; a careful user also removes the old frame definitions
+                    conv.set_num_events_to_store(r.m.n);
+                    conv.set_time_frame_definitions(TimeFrameDefinitions());
+                  }
+                else
+                  {
+                    std::vector<std::pair<double, double>> fr;
+                    for (auto& f : r.m.frames) fr.push_back({ (double)f.first, (double)f.second });
+                    conv.set_num_events_to_store(0);
+                    conv.set_time_frame_definitions(TimeFrameDefinitions(fr));
+                  }
+                setters += 2;
+                if (p) add(std::string("mode:") + p->m.kind() + "->" + r.m.kind());
+              }
+            conv.set_up();
+            conv.process_data();
+            conv.frames.push_back(conv.grab());
+            reads1 = lm->n_read;
+          },
+          &what);
+      if (changed.empty()) changed = k ? "nothing" : "fresh";
+      // key: a switch between time-frame mode and event-count mode is one class whatever else changed (one defect there = one line)
+      std::string keychanged = changed;
+      if (k && (runs[k - 1].m.n > 0) != (r.m.n > 0)) keychanged = r.m.n > 0 ? "mode:time_frames->event_count" : "mode:event_count->time_frames";
+      const std::string keytail = ";run=" + vmc::str(k + 1) + ";changed=" + keychanged + ";tof=" + (w.tof ? "1" : "0");
+      ctx.count("states");
+      ctx.count("traces_validated_against_impl");
+      ctx.count("H_reuse_runs");
+      if (threw)
+        {
+          ctx.violation("part=H;reuse=1;clause=exception" + keytail, kase, "re-used LmToProjData threw in run " + vmc::str(k + 1) + ": " + what.substr(0, 300));
+          return;
+        }
+      ctx.count("transitions", setters + (r.input == 0 ? reads1 - reads0 : reads1));
+      std::vector<std::vector<float>> ref;
+      long accepted = 0;
+      if (r.m.n > 0) { Select sel; sel.num_events = r.m.n; ref.push_back(lmref::ref_histogram(w.g, cur, sel, st, &accepted)); }
+      else
+        for (auto& f : r.m.frames)
+          {
+            Select sel; sel.start = f.first; sel.end = f.second;
+            long a = 0;
+            ref.push_back(lmref::ref_histogram(w.g, cur, sel, st, &a));
+            accepted += a;
+          }
+      if (conv.frames.size() != ref.size())
+        {
+          ctx.violation("part=H;reuse=1;clause=frame_hook" + keytail, kase, "run " + vmc::str(k + 1) + " (" + r.str() + "): number of frames processed " + vmc::str(conv.frames.size()) + " != " + vmc::str(ref.size()));
+          return;
+        }
+      for (size_t f = 0; f < ref.size(); ++f)
+        if (conv.frames[f] != ref[f])
+          {
+            ctx.violation("part=H;reuse=1;clause=counts" + keytail, kase,
+                          "run " + vmc::str(k + 1) + " of the same LmToProjData object (mode/store/num_segments_in_memory/num_TOF_bins_in_memory/input = " + r.str() + "; changed: " + changed + "), frame "
+                              + vmc::str(f + 1) + ": " + first_diff(w, conv.frames[f], ref[f]));
+            return;
+          }
+      if (k > 0)
+        {
+          if (ref.back() != prev_ref) { ctx.count("H_reuse_runs_that_must_change_the_result"); if (accepted > 0) ctx.nontrivial(kase + "#" + vmc::str(k)); }
+          else ctx.count("H_reuse_runs_that_must_keep_the_result");
+        }
+      prev_ref = ref.back();
+    }
+}
+
+// the settings alphabet of a re-used LmToProjData for a stream
+static std::vector<HRun> h_reuse_settings(const World& w, const Stream& s, bool reduced)
+{
+  int T = 1, nev = 0;
+  for (const Rec& r : s) { if (r.kind == 'T') T += r.dt; else ++nev; }
+  std::vector<Mode> modes;
+  { Mode m; m.frames = { { 0, T } }; modes.push_back(m); }
+  if (T > 1)
+    {
+      { Mode m; m.frames = { { 0, 1 } }; modes.push_back(m); }
+      { Mode m; m.frames = { { T - 1, T } }; modes.push_back(m); }
+      { Mode m; m.frames = { { 0, 1 }, { 1, T } }; modes.push_back(m); }
+    }
+  { Mode m; m.n = 1; modes.push_back(m); }
+  if (nev > 1) { Mode m; m.n = 2; modes.push_back(m); }
+  std::vector<HRun> v;
+  const int nseg = w.g.nseg(), ntof = w.g.ntof();
+  std::set<std::pair<int, int>> batch = { { nseg, ntof }, { 1, 1 } };
+  if (!reduced) { batch.insert({ nseg, 1 }); batch.insert({ 1, ntof }); }
+  for (const Mode& m : modes)
+    for (int store = 0; store < (reduced ? 2 : 3); ++store)
+      for (auto it = batch.rbegin(); it != batch.rend(); ++it)
+        {
+          HRun r; r.m = m; r.store = store; r.ms = it->first; r.mt = it->second;
+          v.push_back(r);
+        }
+  return v;
+}
+
 // ------------------------------------------------------------------------------------------------ alphabets
 static std::vector<Rec> alphabet(const World& w, int kind, std::vector<std::string>* names = nullptr)
 {
@@ -796,6 +963,385 @@ static void check_gradient(vmc::Ctx& ctx, GWorld& G, const Stream& s, const GCfg
     }
 }
 
+// ================================================================================================ Part G, RE-USED objective functions
+// One history = the SAME list-mode objective function object set up 2 (thorough also 3) times; between the set_ups the setters whose value
+// changes are called (set_num_subsets, set_use_subset_sensitivities, set_max_segment_num_to_process, set_cache_max_size) plus one extra action
+// (set_input_data with a new object for the same / another stream, set_recompute_sensitivity(false), set_recompute_cache(false)).
+// After EVERY set_up: data term, gradient and subset sensitivities must equal (a) the explicit-matrix reference for the CURRENT settings,
+// (b) a freshly built list-mode objective function with the current settings, (c) the projection-data objective function on the data
+// histogrammed by the real LmToProjData with the current settings.
+struct RSet
+{
+  int N = 1, us = 1, ms = -1, cache = 0; // num_subsets, use_subset_sensitivities, max_segment_num_to_process, list-mode cache size
+  int act = 0; // stages >= 2: 0 -, 1 set_input_data(new object, same stream), 2 set_input_data(other stream), 3 set_recompute_sensitivity(false), 4 set_recompute_cache(false)
+  std::string str() const { return vmc::str(N) + "." + vmc::str(us) + "." + vmc::str(ms) + "." + vmc::str(cache) + "." + vmc::str(act); }
+  std::string skey() const { return vmc::str(N) + "." + vmc::str(us) + "." + vmc::str(ms) + "." + vmc::str(cache); }
+  bool same_settings(const RSet& o) const { return N == o.N && us == o.us && ms == o.ms && cache == o.cache; }
+};
+struct RCfg { int sym = 0, add = 0, sv = 0; };
+struct ObjRes { bool ok = false, g_rejected = false; std::string what; std::vector<std::vector<double>> gs, g, sens; };
+struct RefRes { bool screened = false; long accepted = 0; std::vector<std::vector<double>> data, sens; };
+static std::map<std::string, ObjRes> g_fresh_lm, g_fresh_pd;
+static std::map<std::string, RefRes> g_ref_cache;
+static const char* ACT_NAME[5] = { "", "input:same_stream_new_object", "input:other_stream", "recompute_sensitivity:off", "recompute_cache:off" };
+
+// the streams of a stream variant: first input, the "other" input, frame [fa,fb) (fa<0: no frame definitions)
+static void reuse_streams(const World& w, int sv, Stream& first, Stream& other, int& fa, int& fb)
+{
+  auto ev = [&](int c) { Rec r = w.cls[c]; r.kind = 'P'; return r; };
+  Rec tk; tk.kind = 'T'; tk.dt = 1;
+  const Rec A = ev(cA), B = w.cls[cB].kind ? ev(cB) : ev(cA), A2 = w.cls[cA2].kind ? ev(cA2) : ev(cAs);
+  const Stream X0 = { A, B }, X1 = { A, tk, B, A2 }, X2 = { B, tk, A, A };
+  fa = fb = -1;
+  if (sv == 0) { first = X0; other = X1; }
+  else { first = X1; other = X2; if (sv == 2) { fa = 1; fb = 2; } }
+}
+
+static void eval_obj(PoissonLogLikelihoodWithLinearModelForMean<Target>& p, const Target& est, int N, ObjRes& r)
+{
+  shared_ptr<Target> out(est.get_empty_copy());
+  for (int S = 0; S < N; ++S)
+    {
+      p.compute_sub_gradient_without_penalty_plus_sensitivity(*out, est, S);
+      r.gs.push_back(from_image(*out));
+      r.sens.push_back(from_image(p.get_subset_sensitivity(S)));
+      if (!r.g_rejected)
+        {
+          // without subset sensitivities and with several subsets STIR refuses to subtract the sensitivity (documented error)
+          std::string what;
+          if (small::throws([&] { p.compute_sub_gradient_without_penalty(*out, est, S); }, &what)) { r.g_rejected = true; r.g.clear(); }
+          else r.g.push_back(from_image(*out));
+        }
+    }
+  r.ok = true;
+}
+
+static void configure_fresh_lm(LMObj& obj, const World& w, const GWorld& G, const RCfg& c, const RSet& r, const Stream& s, int fa, int fb, shared_ptr<ProjDataInMemory>& addpd)
+{
+  shared_ptr<lmref::MemListMode> lm(new lmref::MemListMode(w.tmpl, s));
+  obj.set_input_data(shared_ptr<ExamData>(lm));
+  obj.set_proj_matrix(make_matrix(c.sym));
+  if (c.add) { addpd = projdata_from(w, G.additive); obj.set_additive_proj_data_sptr(addpd); }
+  obj.set_num_subsets(r.N);
+  obj.set_use_subset_sensitivities(r.us != 0);
+  obj.set_recompute_sensitivity(true);
+  obj.set_cache_path(g_cache_dir);
+  obj.set_cache_max_size((unsigned long)r.cache);
+  obj.set_recompute_cache(true);
+  obj.set_max_segment_num_to_process(r.ms);
+  if (fa >= 0)
+    {
+      std::vector<std::pair<double, double>> fr(1, { (double)fa, (double)fb });
+      obj.frame_defs = TimeFrameDefinitions(fr);
+    }
+}
+
+static std::string settings_key(const World& w, const RCfg& c, const RSet& r, const Stream& s, int fa, int fb, bool with_cache)
+{
+  return w.t.str() + "|" + vmc::str(c.sym) + "|" + vmc::str(c.add) + "|" + lmref::stream_str(s) + "|" + vmc::str(fa) + "|" + vmc::str(fb) + "|" + vmc::str(r.N) + "." + vmc::str(r.us) + "."
+         + vmc::str(r.ms) + (with_cache ? "." + vmc::str(r.cache) : std::string());
+}
+
+// a freshly built list-mode objective function with these settings (memoised: deterministic)
+static const ObjRes& fresh_lm(vmc::Ctx& ctx, GWorld& G, const RCfg& c, const RSet& r, const Stream& s, int fa, int fb, const shared_ptr<Target>& est)
+{
+  const std::string key = settings_key(*G.w, c, r, s, fa, fb, true);
+  auto it = g_fresh_lm.find(key);
+  if (it != g_fresh_lm.end()) return it->second;
+  ObjRes res;
+  shared_ptr<LMObj> obj(new LMObj);
+  shared_ptr<ProjDataInMemory> addpd;
+  bool failed = false;
+  if (small::throws([&] { configure_fresh_lm(*obj, *G.w, G, c, r, s, fa, fb, addpd); failed = obj->set_up(est) != Succeeded::yes; if (!failed) eval_obj(*obj, *est, r.N, res); }, &res.what) || failed)
+    res.ok = false;
+  ctx.count("G_reuse_fresh_objects");
+  return g_fresh_lm[key] = res;
+}
+
+// the projection-data objective function on the data histogrammed by the real LmToProjData (prompts only), same model
+static const ObjRes& fresh_pd(vmc::Ctx& ctx, GWorld& G, const RCfg& c, const RSet& r, const Stream& s, int fa, int fb, const shared_ptr<Target>& est)
+{
+  const std::string key = settings_key(*G.w, c, r, s, fa, fb, false);
+  auto it = g_fresh_pd.find(key);
+  if (it != g_fresh_pd.end()) return it->second;
+  const World& w = *G.w;
+  ObjRes res;
+  int T = 1;
+  for (const Rec& x : s) if (x.kind == 'T') T += x.dt;
+  Mode m; m.frames = { { fa < 0 ? 0 : fa, fa < 0 ? T : fb } };
+  shared_ptr<ProjDataInMemory> hist, addpd;
+  bool failed = false;
+  if (small::throws(
+          [&] {
+            run_real(w, s, m, STORES[1], w.g.nseg(), w.g.ntof(), nullptr, false, &hist);
+            shared_ptr<PDObj> pobj(new PDObj);
+            pobj->set_proj_data_sptr(hist);
+            shared_ptr<ProjMatrixByBin> pm = make_matrix(c.sym);
+            shared_ptr<ProjectorByBinPair> pp(new ProjectorByBinPairUsingProjMatrixByBin(pm));
+            pobj->set_projector_pair_sptr(pp);
+            if (c.add) { addpd = projdata_from(w, G.additive); pobj->set_additive_proj_data_sptr(addpd); }
+            pobj->set_num_subsets(r.N);
+            pobj->set_use_subset_sensitivities(r.us != 0);
+            pobj->set_recompute_sensitivity(true);
+            pobj->set_max_segment_num_to_process(r.ms);
+            failed = pobj->set_up(est) != Succeeded::yes;
+            if (!failed) eval_obj(*pobj, *est, r.N, res);
+          },
+          &res.what)
+      || failed)
+    res.ok = false;
+  ctx.count("G_reuse_projdata_objectives");
+  return g_fresh_pd[key] = res;
+}
+
+// explicit-matrix reference for the settings: data term per subset and the subset sensitivity the objective function must use
+static const RefRes& reuse_reference(GWorld& G, const RCfg& c, const RSet& r, const Stream& s, int fa, int fb, const std::vector<double>& lambda)
+{
+  const std::string key = settings_key(*G.w, c, r, s, fa, fb, false);
+  auto it = g_ref_cache.find(key);
+  if (it != g_ref_cache.end()) return it->second;
+  const World& w = *G.w;
+  RefRes R;
+  Select sel; sel.start = fa < 0 ? 0 : fa; sel.end = fa < 0 ? 1e30 : fb;
+  std::vector<float> y = lmref::ref_histogram(w.g, s, sel, STORES[1], nullptr);
+  auto in_segs = [&](size_t b) { return r.ms < 0 || std::abs(G.bins[b].segment_num()) <= r.ms; };
+  const std::vector<int>& subset_of = subsets_of(G, c.sym, r.N);
+  std::vector<double> ybar(w.g.nbins, 0.0);
+  for (size_t b = 0; b < w.g.nbins; ++b)
+    {
+      if (!in_segs(b)) y[b] = 0.F; // "maximum absolute segment number to process": events of the other segments are not part of the model
+      if (y[b] <= 0) continue;
+      R.accepted += (long)y[b];
+      double f = c.add ? G.additive[b] : 0.0;
+      for (auto& e : G.rows[b]) f += e.second * lambda[e.first];
+      ybar[b] = f;
+      if (f > 0 && y[b] / f > 1000.0) R.screened = true;
+    }
+  R.data.assign(r.N, std::vector<double>(G.nvox, 0.0));
+  R.sens.assign(r.N, std::vector<double>(G.nvox, 0.0));
+  for (size_t b = 0; b < w.g.nbins; ++b)
+    {
+      if (!in_segs(b)) continue;
+      const int S = subset_of[b];
+      for (auto& e : G.rows_nt[b]) R.sens[S][e.first] += e.second / (w.tof ? double(w.g.ntof()) : 1.0);
+      if (y[b] > 0 && ybar[b] > 0)
+        for (auto& e : G.rows[b]) R.data[S][e.first] += y[b] * e.second / ybar[b];
+    }
+  if (!r.us && r.N > 1)
+    {
+      // without subset sensitivities: every subset uses total sensitivity / num_subsets
+      std::vector<double> tot(G.nvox, 0.0);
+      for (int S = 0; S < r.N; ++S) for (size_t j = 0; j < G.nvox; ++j) tot[j] += R.sens[S][j];
+      for (int S = 0; S < r.N; ++S) for (size_t j = 0; j < G.nvox; ++j) R.sens[S][j] = tot[j] / r.N;
+    }
+  return g_ref_cache[key] = R;
+}
+
+static std::string changed_str(const RSet& p, const RSet& c, int maxseg)
+{
+  std::string s;
+  auto add = [&](const std::string& x) { if (!s.empty()) s += "+"; s += x; };
+  if (p.N != c.N) add("num_subsets");
+  if (p.us != c.us) add("use_subset_sensitivities");
+  if (p.ms != c.ms)
+    {
+      const int a = p.ms < 0 ? maxseg : p.ms, b = c.ms < 0 ? maxseg : c.ms;
+      add(std::string("max_segment:") + (b > a ? "widen" : b < a ? "narrow" : "same_range"));
+    }
+  if (p.cache != c.cache) add("cache_size");
+  if (c.act) add(ACT_NAME[c.act]);
+  return s.empty() ? "nothing" : s;
+}
+
+static void check_reuse(vmc::Ctx& ctx, GWorld& G, const RCfg& c, const std::vector<RSet>& hist)
+{
+  const World& w = *G.w;
+  std::string h;
+  for (size_t i = 0; i < hist.size(); ++i) { if (i) h += "|"; h += hist[i].str(); }
+  const std::string kase = "part=R;" + w.t.str() + ";sym=" + vmc::str(c.sym) + ";add=" + vmc::str(c.add) + ";sv=" + vmc::str(c.sv) + ";h=" + h;
+  ctx.current("part=G;reuse", kase);
+  ctx.count("G_reuse_histories");
+  ctx.count("evaluations");
+  Stream cur, other;
+  int fa, fb;
+  reuse_streams(w, c.sv, cur, other, fa, fb);
+  shared_ptr<Target> est = image_pattern(G, 1);
+  const std::vector<double> lambda = from_image(*est);
+  bool uses_act4 = false;
+  for (auto& r : hist) if (r.act == 4) uses_act4 = true;
+  if (uses_act4) // "recompute cache = off" reads every my_CACHE<n>.bin that exists: start from an empty cache directory
+    for (int i = 0; i < 64; ++i)
+      if (::remove((g_cache_dir + "/my_CACHE" + std::to_string(i) + ".bin").c_str()) != 0) break;
+  shared_ptr<LMObj> obj(new LMObj);
+  shared_ptr<ProjDataInMemory> addpd;
+  bool resens_off = false, recache_off = false;
+  const RefRes* prev_ref = nullptr;
+  for (size_t k = 0; k < hist.size(); ++k)
+    {
+      const RSet& r = hist[k];
+      const std::string stage = vmc::str(k + 1);
+      const std::string changed = k == 0 ? std::string("fresh") : changed_str(hist[k - 1], r, w.g.max_seg);
+      const std::string keytail = ";set_up=" + stage + ";changed=" + changed + ";build=" + BUILD + ";tof=" + (w.tof ? "1" : "0");
+      std::string what;
+      bool failed = false;
+      long setters = 0;
+      if (small::throws(
+              [&] {
+                if (k == 0) { configure_fresh_lm(*obj, w, G, c, r, cur, fa, fb, addpd); setters = 8; }
+                else
+                  {
+                    const RSet& p = hist[k - 1];
+                    if (r.act == 1 || r.act == 2)
+                      {
+                        if (r.act == 2) std::swap(cur, other);
+                        shared_ptr<lmref::MemListMode> lm(new lmref::MemListMode(w.tmpl, cur));
+                        obj->set_input_data(shared_ptr<ExamData>(lm)); ++setters;
+                      }
+                    if (p.N != r.N) { obj->set_num_subsets(r.N); ++setters; }
+                    if (p.us != r.us) { obj->set_use_subset_sensitivities(r.us != 0); ++setters; }
+                    if (p.ms != r.ms) { obj->set_max_segment_num_to_process(r.ms); ++setters; }
+                    if (p.cache != r.cache) { obj->set_cache_max_size((unsigned long)r.cache); ++setters; }
+                    if (r.act == 3) { obj->set_recompute_sensitivity(false); resens_off = true; ++setters; }
+                    else if (resens_off) { obj->set_recompute_sensitivity(true); resens_off = false; ++setters; }
+                    if (r.act == 4) { obj->set_recompute_cache(false); recache_off = true; ++setters; }
+                    else if (recache_off) { obj->set_recompute_cache(true); recache_off = false; ++setters; }
+                  }
+                failed = obj->set_up(est) != Succeeded::yes;
+              },
+              &what)
+          || failed)
+        {
+          ctx.count("G_reuse_set_up_rejected");
+          const ObjRes& fr = fresh_lm(ctx, G, c, r, cur, fa, fb, est);
+          if (k > 0 && fr.ok)
+            {
+              ctx.count("G_reuse_rejected_but_fresh_accepts");
+              ctx.observe("re-used list-mode objective function: set_up " + stage + " after changing " + changed + " is rejected (" + what.substr(0, 120)
+                          + ") although a fresh object with the same settings is accepted; first case " + kase);
+            }
+          return; // the object's state is undefined after a failed set_up
+        }
+      ctx.count("states");
+      ctx.count("G_reuse_set_ups");
+      ctx.count("transitions", setters);
+      const RefRes& ref = reuse_reference(G, c, r, cur, fa, fb, lambda);
+      if (ref.screened) { ctx.count("G_screened_near_truncation"); return; }
+      ObjRes res;
+      ctx.count("traces_validated_against_impl", 2 * r.N);
+      if (small::throws([&] { eval_obj(*obj, *est, r.N, res); }, &what))
+        {
+          ctx.violation("part=G;reuse=1;clause=exception" + keytail, kase, "sub-gradient of the re-used objective function threw after set_up " + stage + ": " + what.substr(0, 300));
+          return;
+        }
+      bool ok = true;
+      auto compare = [&](const std::string& clause, int S, const std::vector<double>& impl, const std::vector<double>& rf, const std::vector<double>& Tsum, const char* against) {
+        if (!ok) return;
+        double worst = 0; int at = -1;
+        for (size_t j = 0; j < rf.size(); ++j)
+          {
+            const double tol = (64 * EPSF + 2e-6) * Tsum[j] + 1e-30;
+            const double q = std::fabs(impl[j] - rf[j]) / tol;
+            if (!(q <= worst)) { worst = q; at = (int)j; }
+          }
+        if (worst > 1.0)
+          {
+            ok = false;
+            ctx.violation("part=G;reuse=1;clause=" + clause + keytail, kase,
+                          clause + " after set_up " + stage + " (changed: " + changed + "; settings num_subsets." + "use_subset_sens.max_segment.cache.action = " + r.str() + ") subset " + vmc::str(S) + " voxel "
+                              + vmc::str(at) + ": re-used list-mode objective " + vmc::str(impl[at]) + ", " + against + " " + vmc::str(rf[at]) + " (tolerance "
+                              + vmc::str((64 * EPSF + 2e-6) * Tsum[at]) + "; prompts in model " + vmc::str(ref.accepted) + ")");
+          }
+      };
+      auto sumabs = [&](const std::vector<double>& a, const std::vector<double>& b) { std::vector<double> t(a.size()); for (size_t j = 0; j < a.size(); ++j) t[j] = std::fabs(a[j]) + std::fabs(b[j]); return t; };
+      // (a) explicit reference
+      for (int S = 0; S < r.N && ok; ++S)
+        {
+          compare("data_term", S, res.gs[S], ref.data[S], ref.data[S], "reference");
+          if (!w.tof)
+            {
+              if (r.us || r.N == 1) compare("sensitivity", S, res.sens[S], ref.sens[S], ref.sens[S], "reference");
+              else
+                {
+                  // use_subset_sensitivities=false with several subsets: STIR refuses to compute the gradient (error), so the value of the subset
+                  // sensitivity is outside the statement; recorded only (add_subset_sensitivity overwrites instead of accumulating: last subset / N)
+                  bool differs = false;
+                  for (size_t j = 0; j < G.nvox; ++j) if (std::fabs(res.sens[S][j] - ref.sens[S][j]) > 1e-4 * ref.sens[S][j] + 1e-30) differs = true;
+                  if (differs)
+                    {
+                      ctx.count("G_reuse_nosubsetsens_sensitivity_not_total_over_N");
+                      ctx.observe("list-mode objective function with use_subset_sensitivities=false and num_subsets>1: get_subset_sensitivity() is not (total sensitivity)/num_subsets "
+                                  "(add_subset_sensitivity() overwrites its argument, so only the last subset is kept); not a violation of the statement because the gradient is refused in this configuration");
+                    }
+                }
+              if (!res.g_rejected)
+                {
+                  std::vector<double> rg(G.nvox), Ts(G.nvox);
+                  for (size_t j = 0; j < G.nvox; ++j) { rg[j] = ref.data[S][j] - ref.sens[S][j]; Ts[j] = ref.data[S][j] + ref.sens[S][j]; }
+                  compare("gradient", S, res.g[S], rg, Ts, "reference");
+                }
+            }
+          else if (!res.g_rejected)
+            {
+              std::vector<double> r2(G.nvox);
+              for (size_t j = 0; j < G.nvox; ++j) r2[j] = res.gs[S][j] - res.sens[S][j];
+              compare("gradient_vs_own_sensitivity", S, res.g[S], r2, sumabs(res.gs[S], res.sens[S]), "data term - own sensitivity");
+            }
+        }
+      // (b) a fresh object with the same final settings
+      if (ok)
+        {
+          const ObjRes& fr = fresh_lm(ctx, G, c, r, cur, fa, fb, est);
+          if (!fr.ok) ctx.count("G_reuse_accepted_but_fresh_rejects");
+          else
+            {
+              ctx.count("G_reuse_fresh_comparisons");
+              for (int S = 0; S < r.N && ok; ++S)
+                {
+                  compare("data_term_vs_fresh_object", S, res.gs[S], fr.gs[S], sumabs(res.gs[S], fr.gs[S]), "fresh object");
+                  compare("sensitivity_vs_fresh_object", S, res.sens[S], fr.sens[S], sumabs(res.sens[S], fr.sens[S]), "fresh object");
+                  if (!res.g_rejected && !fr.g_rejected) compare("gradient_vs_fresh_object", S, res.g[S], fr.g[S], sumabs(res.gs[S], res.sens[S]), "fresh object");
+                }
+            }
+        }
+      // (c) the statement literally: projection-data objective function of the histogrammed data, same model
+      if (ok)
+        {
+          const ObjRes& pd = fresh_pd(ctx, G, c, r, cur, fa, fb, est);
+          if (!pd.ok) ctx.count("projdata_objective_rejected");
+          else
+            {
+              ctx.count("G_projdata_comparisons");
+              for (int S = 0; S < r.N && ok; ++S)
+                {
+                  compare("data_term_vs_projdata_objective", S, res.gs[S], pd.gs[S], sumabs(res.gs[S], pd.gs[S]), "projection-data objective");
+                  if (!w.tof && !res.g_rejected && !pd.g_rejected)
+                    compare("gradient_vs_projdata_objective", S, res.g[S], pd.g[S], sumabs(res.gs[S], res.sens[S]), "projection-data objective");
+                }
+            }
+        }
+      if (!ok) return;
+      if (k > 0)
+        {
+          if (prev_ref && (prev_ref->data != ref.data || prev_ref->sens != ref.sens)) { ctx.count("G_reuse_set_ups_that_must_change_the_result"); if (ref.accepted > 0) ctx.nontrivial(kase + "#" + stage); }
+          else ctx.count("G_reuse_set_ups_that_must_keep_the_result");
+        }
+      prev_ref = &ref;
+    }
+}
+
+static std::vector<RSet> parse_hist(const std::string& h)
+{
+  std::vector<RSet> v;
+  for (auto& p : vmc::split(h, '|'))
+    {
+      std::vector<int> x = vmc::ints(p, '.');
+      x.resize(5, 0);
+      RSet r; r.N = x[0]; r.us = x[1]; r.ms = x[2]; r.cache = x[3]; r.act = x[4];
+      v.push_back(r);
+    }
+  return v;
+}
+
 // ------------------------------------------------------------------------------------------------ enumeration
 struct HTask { Tmpl t; int alpha; int depth; };
 struct GTask { Tmpl t; int depth; };
@@ -836,6 +1382,21 @@ static void replay_case(vmc::Ctx& ctx)
   auto m = vmc::kv(ctx.replay);
   Tmpl t = Tmpl::parse(m);
   Stream s = lmref::parse_stream(m["s"]);
+  if (m["part"] == "HR")
+    {
+      auto w = world(t);
+      std::vector<HRun> runs;
+      for (auto& p : vmc::split(m["runs"], '~')) runs.push_back(HRun::parse(p));
+      check_h_reuse(ctx, *w, lmref::parse_stream(m["s"]), lmref::parse_stream(m["s2"]), runs);
+      return;
+    }
+  if (m["part"] == "R")
+    {
+      auto G = gworld(t);
+      RCfg c; c.sym = atoi(m["sym"].c_str()); c.add = atoi(m["add"].c_str()); c.sv = atoi(m["sv"].c_str());
+      check_reuse(ctx, *G, c, parse_hist(m["h"]));
+      return;
+    }
   if (m["part"] == "G")
     {
       auto G = gworld(t);
@@ -868,7 +1429,11 @@ int main(int argc, char** argv)
   ctx.rule = "state = (template geometry, event stream, selection [frames | num_events_to_store], store flags, num_segments_in_memory, num_TOF_bins_in_memory); "
              "every state is one execution of the real LmToProjData on fresh objects compared bin by bin with the reference histogram; transitions = records "
              "delivered by the in-memory list-mode driver; streams = ALL words over the event alphabet up to the length bound (+ the every-detector-pair-once streams); "
-             "part G: one case = (geometry, stream, frame, subsets, symmetries, additive, cache size), non-trivial = events present and num_subsets > 1";
+             "part G: one case = (geometry, stream, frame, subsets, symmetries, additive, cache size), non-trivial = events present and num_subsets > 1; "
+             "RE-USED objects: one history = the same list-mode objective function set up 2 (thorough: 3) times / the same LmToProjData run 2 (3) times, ALL (before, after) "
+             "tuples of the settings alphabet x the action in between (changed setters, set_input_data same/other stream, recompute flags off, input rewound); every "
+             "set_up/run is a state compared with the reference for the CURRENT settings, a fresh object and the projection-data objective; transitions = setter calls "
+             "(+ records delivered); non-trivial = the reference result of the later set_up/run differs from the earlier one and events are present";
   ctx.assume("event time = time of the last preceding time mark (0 before the first); a frame is [start,end): this is what ListModeData's documentation and "
              "LmToProjData define; ticks at whole seconds, frame boundaries at whole seconds (no floating-point ties)");
   ctx.assume("bin of an event = ProjDataInfoCylindricalNoArcCorr::get_bin_for_det_pos_pair of the TEMPLATE geometry (C01's subject, trusted here), accepted iff inside the "
@@ -879,6 +1444,11 @@ int main(int argc, char** argv)
   ctx.assume("gradient tolerance: |impl-ref| <= (64*eps_float + 2e-6)*sum|terms| per voxel, reference in double on the explicit ray-tracing matrix (all symmetries off); "
              "cases with y/ybar > 1000 for some bin are screened from the inputs (truncation at 10000)");
   ctx.assume("TOF list-mode objective: sensitivity is computed without TOF by design (use_tofsens=false), so only the data term is compared with the reference for TOF");
+  ctx.assume("re-used objects: only the setters whose value changes are called between set_ups/runs; 'recompute sensitivity/cache = off' is only requested when nothing they depend on "
+             "changed (otherwise stale data is what the user asked for); a set_up that is rejected with an error where a fresh object is accepted is recorded, not a violation; "
+             "the subset sensitivity for use_subset_sensitivities=false with num_subsets>1 is not compared with the reference (STIR refuses the gradient there); whether "
+             "LmToProjData::process_data rewinds its input is undocumented: the harness rewinds it (reset() or set_input_data) before every further run; when switching to "
+             "num_events_to_store>0 the old frame definitions are also removed");
   ctx.assume("per-frame outputs of a multi-frame process_data call with in-memory output are read in the documented start_new_time_frame hook");
   if (ctx.replaying()) { replay_case(ctx); return ctx.finish(); }
 
@@ -919,14 +1489,14 @@ int main(int argc, char** argv)
       htasks.push_back({ tTOF, 1, 3 });
       htasks.push_back({ tSPAN5, 1, 3 });
     }
-  if (only == "G") htasks.clear();
+  if (only == "G" || only == "R" || only == "HR") htasks.clear();
   std::vector<GTask> gtasks;
   gtasks.push_back({ tNT, th ? 3 : 2 });
   gtasks.push_back({ tTOF, th ? 3 : 2 });
   gtasks.push_back({ tSPAN, th ? 2 : 1 });
   gtasks.push_back({ tVM, th ? 2 : 1 });
   if (th) gtasks.push_back({ tTM, 2 });
-  if (only == "H") gtasks.clear();
+  if (only == "H" || only == "R" || only == "HR") gtasks.clear();
 
   uint64_t unit = 0;
   // work unit = (task, first PL symbols of the stream)
@@ -976,7 +1546,7 @@ int main(int argc, char** argv)
   for (const Tmpl& t : all)
     for (int variant = 0; variant < 2; ++variant)
       {
-        if (only == "G") continue;
+        if (only == "G" || only == "R" || only == "HR") continue;
         if (!ctx.mine(unit++)) continue;
         if (ctx.expired()) return ctx.finish();
         auto w = world(t);
@@ -985,6 +1555,56 @@ int main(int argc, char** argv)
         ctx.count("all_pairs_streams");
         ctx.count("bins_with_2_pairs", w->bins_with_2_pairs);
       }
+  // ---- part H, re-used LmToProjData objects: ALL (before, after) pairs of settings x how the input is rewound; thorough: + ALL triples over a reduced alphabet
+  if (only.empty() || only == "H" || only == "HR")
+    {
+      struct HRTask { Tmpl t; int depth; bool fixed_streams; bool triples; };
+      std::vector<HRTask> hr;
+      if (!th) { hr.push_back({ tTOF, 2, true, false }); hr.push_back({ tNT, 1, true, false }); }
+      else
+        {
+          hr.push_back({ tTOF, 3, true, false });
+          for (const Tmpl& t : { tNT, tSEGRED, tMIX }) hr.push_back({ t, 2, true, false });
+          hr.push_back({ tTOF, -1, true, true });
+          hr.push_back({ tNT, -1, true, true });
+        }
+      for (const HRTask& task : hr)
+        {
+          auto w = world(task.t);
+          const std::vector<Rec> a = alphabet(*w, 0);
+          auto sym = [&](char kind, int c) { Rec r = w->cls[c].kind ? w->cls[c] : w->cls[cA]; r.kind = kind; return r; };
+          Rec tk; tk.kind = 'T'; tk.dt = 1;
+          const Stream F0 = { sym('P', cA), sym('D', cA), tk, sym('P', cB), sym('P', cA) };
+          const Stream F1 = { sym('P', cB), tk, sym('D', cB), sym('P', cA), tk, sym('P', cB) };
+          std::vector<std::pair<Stream, Stream>> streams;
+          if (task.depth >= 0) for_streams(a, {}, task.depth, [&](const Stream& s) { streams.push_back({ s, F0 }); }); // simplest first
+          if (task.fixed_streams) { streams.push_back({ F0, F1 }); streams.push_back({ F1, F0 }); }
+          for (auto& sp : streams)
+            {
+              const std::vector<HRun> sigma = h_reuse_settings(*w, sp.first, task.triples), sigma_other = h_reuse_settings(*w, sp.second, task.triples);
+              for (const HRun& r1 : sigma)
+                {
+                  if (!ctx.mine(unit++)) continue;
+                  if (ctx.expired()) return ctx.finish();
+                  for (int in2 : { 0, 1, 2 })
+                    for (const HRun& s2 : (in2 == 2 ? sigma_other : sigma))
+                      {
+                        HRun r2 = s2; r2.input = in2;
+                        if (!task.triples) { check_h_reuse(ctx, *w, sp.first, sp.second, { r1, r2 }); continue; }
+                        if (in2 == 1) continue;
+                        for (int in3 : { 0, 2 })
+                          for (const HRun& s3 : ((in2 == 2) != (in3 == 2) ? sigma_other : sigma))
+                            {
+                              HRun r3 = s3; r3.input = in3;
+                              check_h_reuse(ctx, *w, sp.first, sp.second, { r1, r2, r3 });
+                            }
+                      }
+                  ctx.maxi("H_reuse_runs_per_object", task.triples ? 3 : 2);
+                  ctx.maxi("H_reuse_settings_alphabet", (long long)sigma.size());
+                }
+            }
+        }
+    }
   // ---- part G
   for (const GTask& task : gtasks)
     {
@@ -1021,6 +1641,78 @@ int main(int argc, char** argv)
                 });
                 ctx.maxi("G_depth", task.depth);
               }
+    }
+  // ---- part G, re-used objective functions: ALL (before, after) pairs of settings x the action in between; thorough: + ALL triples over the quick alphabet
+  if (only.empty() || only == "G" || only == "R")
+    {
+      struct RTask { Tmpl t; RCfg c; bool triples; };
+      std::vector<RTask> rtasks;
+      auto addr = [&](const Tmpl& t, int sym, int add, int sv, bool triples) { RTask k; k.t = t; k.c.sym = sym; k.c.add = add; k.c.sv = sv; k.triples = triples; rtasks.push_back(k); };
+      if (!th)
+        {
+          addr(tNT, 0, 0, 0, false);
+          addr(tNT, 1, 1, 2, false);
+          addr(tNT, 0, 1, 1, false);
+          addr(tTOF, 1, 1, 1, false);
+          addr(tTOF, 0, 0, 2, false);
+          addr(tVM, 1, 0, 1, false);
+        }
+      else
+        {
+          for (int sym = 0; sym < 2; ++sym) for (int add = 0; add < 2; ++add) for (int sv = 0; sv < 3; ++sv) addr(tNT, sym, add, sv, false);
+          for (int add = 0; add < 2; ++add) for (int sv = 0; sv < 3; ++sv) addr(tTOF, 1, add, sv, false);
+          for (int sv = 0; sv < 3; ++sv) addr(tVM, 1, 1, sv, false);
+          addr(tNT, 0, 0, 0, true);
+          addr(tNT, 1, 1, 2, true);
+        }
+      for (const RTask& task : rtasks)
+        {
+          auto w = world(task.t);
+          const bool small_alphabet = !th || task.triples;
+          std::vector<RSet> sigma;
+          for (int N : { 1, 2, 4 })
+            for (int us : { 1, 0 })
+              for (int ms : { -1, 0, 1 })
+                for (int cache : { 0, 1, 2, 1000 })
+                  {
+                    if (N == 4 && (small_alphabet || w->g.nviews() % 4 != 0)) continue;
+                    if (cache > 1 && small_alphabet) continue;
+                    if (ms > w->g.max_seg) continue;
+                    RSet r; r.N = N; r.us = us; r.ms = ms; r.cache = cache;
+                    sigma.push_back(r);
+                  }
+          for (const RSet& s1 : sigma)
+            {
+              if (!ctx.mine(unit++)) continue;
+              if (ctx.expired()) return ctx.finish();
+              auto G = gworld(task.t);
+              auto extra_acts = [](const RSet& p, const RSet& r, bool all_same_so_far) {
+                std::vector<int> a = { 0, 1, 2 };
+                // "do not recompute" requests are only meaningful when what they depend on is unchanged (otherwise the user asked for stale data)
+                if (p.us == r.us && p.ms == r.ms && p.cache == r.cache) a.push_back(3);
+                if (all_same_so_far && p.same_settings(r) && r.cache > 0) a.push_back(4);
+                return a;
+              };
+              for (const RSet& s2 : sigma)
+                for (int a2 : extra_acts(s1, s2, true))
+                  {
+                    RSet r2 = s2; r2.act = a2;
+                    if (!task.triples) { check_reuse(ctx, *G, task.c, { s1, r2 }); continue; }
+                    if (a2 == 1 || a2 == 3) continue;
+                    for (const RSet& s3 : sigma)
+                      for (int a3 : extra_acts(s2, s3, s1.same_settings(s2) && a2 != 2))
+                        {
+                          if (a3 == 1 || a3 == 3) continue;
+                          RSet r3 = s3; r3.act = a3;
+                          check_reuse(ctx, *G, task.c, { s1, r2, r3 });
+                        }
+                  }
+              ctx.maxi("G_reuse_set_ups_per_object", task.triples ? 3 : 2);
+              ctx.maxi("G_reuse_settings_alphabet", (long long)sigma.size());
+            }
+          // memoised fresh results are per template/configuration: drop them between tasks to bound memory
+          g_fresh_lm.clear(); g_fresh_pd.clear(); g_ref_cache.clear();
+        }
     }
   return ctx.finish();
 }
